@@ -62,6 +62,12 @@ class Check:
     # -- recording
     def ob(self, rule, ok, where, found, required, key=None, why=None):
         """where = (file, function, line)."""
+        if not ok and getattr(self, "ctx", None) is not None and rule not in getattr(self, "no_downgrade", ()):
+            unread = unread_functions(self.ctx, where)
+            if unread:
+                self.indeterminate(rule, where, "%s -- not decided: the construct depends on %s, which did not exist when this rule was written and is not read by it"
+                                   % (str(found)[:160], ", ".join(unread)))
+                return ok
         verdict = PASS if ok else VIOLATION
         f, fn, ln = where
         o = Obligation(rule, verdict, f, fn, ln, str(found), str(required), key, why)
@@ -93,11 +99,95 @@ class Check:
         return [o for o in self.obs if o.verdict == VIOLATION]
 
 
+class Where(tuple):
+    """(file, function, line), remembering the function model and the AST node it was made from."""
+
+    def __new__(cls, t, func=None, node=None):
+        obj = tuple.__new__(cls, t)
+        obj.func = func
+        obj.node = node
+        return obj
+
+
 def where_of(func, node):
     """(file, function, line) from a FuncInfo (or Module) and AST node."""
     mod = getattr(func, "module", func)
     fn = getattr(func, "qualname", "<module>")
-    return (mod.relpath, fn, getattr(node, "lineno", 0))
+    return Where((mod.relpath, fn, getattr(node, "lineno", 0)), func, node)
+
+
+_KNOWN = None
+
+
+def known_functions():
+    global _KNOWN
+    if _KNOWN is None:
+        path = os.path.join(os.path.dirname(os.path.abspath(__file__)), "known_functions.json")
+        try:
+            with open(path) as fh:
+                _KNOWN = set(json.load(fh)["functions"])
+        except OSError:
+            _KNOWN = set()
+    return _KNOWN
+
+
+def unread_functions(ctx, where):
+    """Functions of the analysed package, not among those the rules were written against, that the
+    construct at `where` depends on: called in its statement, in what that statement's names are
+    defined from (bounded backward slice), or in the statements that use what it defines."""
+    import ast
+
+    func, node = getattr(where, "func", None), getattr(where, "node", None)
+    known = known_functions()
+    if not known or func is None or node is None or not hasattr(func, "node") or ctx is None:
+        return []
+    from .flow import Flow
+    from .guards import back_slice
+    from .source import enclosing_stmt
+
+    try:
+        flow = Flow.of(func)
+        if node is func.node:
+            regions = [func.node]
+        else:
+            st = node if isinstance(node, ast.stmt) else enclosing_stmt(node)
+            if st is None:
+                return []
+            hdr = st
+            if isinstance(st, (ast.For, ast.AsyncFor)):
+                hdr = st.iter
+            elif isinstance(st, (ast.If, ast.While)):
+                hdr = st.test
+            elif isinstance(st, (ast.With, ast.AsyncWith)):
+                hdr = ast.Tuple(elts=[i.context_expr for i in st.items], ctx=ast.Load())
+                for i in st.items:
+                    pass
+            regions = list(back_slice(flow, hdr, 3)) if not isinstance(hdr, ast.Tuple) else [i.context_expr for i in st.items]
+            # forward, one step: statements that use what this statement defines
+            stored = {n.id for n in ast.walk(st) if isinstance(n, ast.Name) and isinstance(n.ctx, ast.Store)} if isinstance(st, (ast.Assign, ast.AugAssign, ast.AnnAssign, ast.For)) else set()
+            if stored:
+                for other in ast.walk(func.node):
+                    if isinstance(other, ast.stmt) and other is not st and not isinstance(other, (ast.FunctionDef, ast.For, ast.While, ast.If, ast.With, ast.Try)):
+                        if any(isinstance(n, ast.Name) and isinstance(n.ctx, ast.Load) and n.id in stored for n in ast.walk(other)):
+                            regions.append(other)
+                    elif isinstance(other, (ast.For, ast.While, ast.If)) and other is not st:
+                        h = other.iter if isinstance(other, ast.For) else other.test
+                        if any(isinstance(n, ast.Name) and isinstance(n.ctx, ast.Load) and n.id in stored for n in ast.walk(h)):
+                            regions.append(h)
+        out = []
+        for r in regions:
+            for c in ast.walk(r):
+                if isinstance(c, ast.Call):
+                    try:
+                        tg = ctx.cg.resolve_callee(func, c.func)
+                    except Exception:
+                        tg = []
+                    for t in tg:
+                        if t not in known and t not in out:
+                            out.append(t)
+        return out
+    except Exception:
+        return []
 
 
 def load_known_findings():
